@@ -12,12 +12,21 @@ pub const FEES: [Fee3; 4] = [
     Fee3::new(1, 1, 1),
 ];
 
+/// root lists: "quick" (16), "thorough" (72, every kind x fee set x first deposit), "deep" (12, for the depth-4 run)
 pub fn roots(tier: &str) -> Vec<PairRoot> {
     let mut v = vec![];
     let kinds: Vec<Kinds> = if tier == "quick" { vec![Kinds::NN, Kinds::NC] } else { vec![Kinds::NN, Kinds::NC, Kinds::CC] };
-    let fees: Vec<usize> = if tier == "quick" { vec![1, 2] } else { vec![0, 1, 2, 3] };
+    let fees: Vec<usize> = if tier == "quick" {
+        vec![1, 2]
+    } else if tier == "deep" {
+        vec![1, 3]
+    } else {
+        vec![0, 1, 2, 3]
+    };
     let firsts: Vec<([u128; 2], bool)> = if tier == "quick" {
         vec![([1_000_000, 1_000_000], false), ([1001, 1001], false), ([1_000_000_000_000, 3_000_000], true), ([0, 0], false)]
+    } else if tier == "deep" {
+        vec![([1_000_000, 1_000_000], false), ([1_000_000_000_000, 3_000_000], true)]
     } else {
         vec![
             ([1_000_000, 1_000_000], false),
@@ -63,15 +72,19 @@ pub fn run(tier: &str, seed: u64) -> i32 {
         "amounts drawn from the stated alphabet relative to current reserves; histories bounded by the stated depth".into(),
         "default cargo features (cw20 LP token)".into(),
     ];
-    let depth = if tier == "quick" { 3 } else { 4 };
+    // every root of the tier with the full alphabet to depth 3
     let scn = scenario(tier, false);
-    let cfg = default_cfg("C01", tier, seed, depth);
+    let cfg = default_cfg("C01", tier, seed, 3);
     ev.add_report(explore(&scn, &cfg));
     if tier != "quick" && ev.violations.is_empty() {
-        // deeper run with the reduced alphabet
-        let scn = scenario("quick", true);
+        // full alphabet to depth 4 from the 'deep' roots
+        let cfg = default_cfg("C01", tier, seed, 4);
+        ev.add_report(explore(&scenario("deep", false), &cfg));
+    }
+    if tier != "quick" && ev.violations.is_empty() {
+        // reduced alphabet to depth 5 from the quick roots
         let cfg = default_cfg("C01", tier, seed, 5);
-        ev.add_report(explore(&scn, &cfg));
+        ev.add_report(explore(&scenario("quick", true), &cfg));
     }
     for c in ["provide:ok", "withdraw:ok", "swap:ok", "collect:nonzero", "swap:protocol_fee>0", "probe:deposit_withdraw", "setfees:ok", "provide:first"] {
         ev.require_counter(c, 1);
@@ -80,10 +93,6 @@ pub fn run(tier: &str, seed: u64) -> i32 {
 }
 
 pub fn replay(doc: &Value) -> bool {
-    let name = doc["scenario"].as_str().unwrap_or("");
-    // root indices refer to the tier's root list; try the recorded tier
-    let tier = doc["tier"].as_str().unwrap_or("quick");
-    let reduced = doc["reduced"].as_bool().unwrap_or(false);
-    let _ = name;
-    replay_trace(&scenario(tier, reduced), doc)
+    // roots are resolved by label; the thorough list contains every root of the other lists
+    replay_trace(&scenario("thorough", false), doc)
 }
